@@ -42,6 +42,7 @@ class FlowEmit:
         if k == "path":
             segs = e[1]
             if len(segs) == 1:
+                if segs[0] in ("true", "false"): return segs[0], "B"
                 if segs[0] not in env: die("unknown variable %s" % segs[0])
                 return env[segs[0]][0], env[segs[0]][1]
             p = "::".join(segs)
@@ -232,13 +233,21 @@ class FlowEmit:
             rhs = s[3]
             # effect requests (scripted RNG): let j = rng_below(e);
             if rhs[0] == "call" and rhs[1][0] == "path" and rhs[1][1][-1] in self.spec.get("effects", {}):
-                tpl, rty, stvar = self.spec["effects"][rhs[1][1][-1]]
+                eff = self.spec["effects"][rhs[1][1][-1]]
+                tpl, rty, stvar = eff[0], eff[1], eff[2]
+                partial = len(eff) > 3 and eff[3] == "partial"
                 args = [self.ex(a, env)[0] for a in rhs[2]]
                 text = tpl
                 for i, a in enumerate(args): text = text.replace("{%d}" % i, a)
                 for key in re.findall(r"\{(self\.[a-z_]+)\}", text): text = text.replace("{%s}" % key, env[key][0])
                 ln = self.lname(name)
                 env[name] = (ln, rty, mut)
+                if stvar is None:        # a partial pure function: `none` = panic
+                    return [pad + "match %s with" % text, pad + "| none => Flow.panic", pad + "| some %s =>" % ln] + \
+                        self.block(rest, tail, env, M, ind + 1)
+                if partial:
+                    return [pad + "match %s with" % text, pad + "| none => Flow.panic", pad + "| some (%s, %s) =>" % (ln, env[stvar][0])] + \
+                        self.block(rest, tail, env, M, ind + 1)
                 return [pad + "let (%s, %s) := %s;" % (ln, env[stvar][0], text)] + self.block(rest, tail, env, M, ind)
             # indexing read: let c = &v[i];   (panics when out of bounds)
             r0 = rhs
@@ -337,6 +346,8 @@ class FlowEmit:
         """what `return e` yields: for a `&mut self` method returning (), the self state"""
         if self.spec.get("returns") == "self":
             return self.tup([env["self." + f][0] for f, _ in self.spec["self_mut"]])
+        if self.spec.get("self_mut"):       # a `&mut self` method with a value: the value and the new state
+            return "(%s, %s)" % (t, self.tup([env["self." + f][0] for f, _ in self.spec["self_mut"]]))
         return "(%s)" % t
 
     def for_loop(self, e, env, Mh):
@@ -347,12 +358,18 @@ class FlowEmit:
         while x[0] in ("ref", "paren"): x = x[1]
         if x[0] == "mcall" and x[2] == "enumerate": enum = True; x = x[1]
         lst_suffix = ""
-        if x[0] == "mcall" and x[2] == "iter": x = x[1]
+        if x[0] == "range" and x[2] is not None:
+            a, at = self.ex(x[1], env); b, bt = self.ex(x[2], env)
+            if at != "N" or bt != "N": die("range over non-integers")
+            v, vty = "(List.range' %s (%s - %s))" % (a, b, a), "L(N)"
+            x = None
+        elif x[0] == "mcall" and x[2] == "iter": x = x[1]
         elif x[0] == "mcall" and x[2] == "drain":
             a = x[3][0]
             if a != ("range", ("num", "1", "i"), None): die("only drain(1..) is supported")
             lst_suffix = ".tail"; x = x[1]
-        v, vty = self.ex(x, env)
+        if x is not None:
+            v, vty = self.ex(x, env)
         if not vty.startswith("L("): die("for over a non-list")
         ety = vty[2:-1]
         self.nloop += 1
@@ -412,6 +429,8 @@ def emit_flow(fn, text, spec, structs):
     M0 = em.muts(env)
     if spec.get("returns") == "self":
         em.rho = em.tupty(M0)
+    elif spec.get("self_mut"):
+        em.rho = "(%s) × %s" % (lty(spec["returns"], structs), em.tupty(M0))
     else:
         em.rho = lty(spec["returns"], structs)
     em.fixed = [(n, t) for n, t, g in params if g]
